@@ -675,6 +675,7 @@ class dok_matrix(spmatrix):
             for r, cc, v in zip(c.row, c.col, c.data):
                 k = (int(r), int(cc))
                 self.d[k] = self.d[k] + v if k in self.d else v
+            self.d = {k: self.d[k] for k in sorted(self.d)}       # scipy goes through coo.sum_duplicates(): row-major key order
         else:
             self._shape = tuple(int(x) for x in arg)
             self.d = {}
@@ -727,6 +728,94 @@ class dok_matrix(spmatrix):
         o = dok_matrix((self._shape[1], self._shape[0]), dtype=self._dtype)
         o.d = {(b, a): v for (a, b), v in self.d.items()}
         return o
+
+
+class _via_csr(spmatrix):
+    """formats the library only ever converts (lil, bsr): they hold what their tocsr() yields"""
+
+    def __init__(self, arg, shape=None, dtype=None, copy=False, blocksize=None):
+        if not isinstance(arg, spmatrix):
+            arg = coo_matrix(arg, shape=shape).tocsr()
+            if dtype is not None:
+                arg._dtype = np.dtype(dtype)
+        src = arg.tocsr()
+        self._shape = src._shape
+        self._dtype = np.dtype(dtype) if dtype is not None else src._dtype
+        rows = []
+        for i in range(self._shape[0]):
+            ent = {}
+            for k in range(int(src.indptr[i]), int(src.indptr[i + 1])):
+                j = int(src.indices[k])
+                if j in ent and self.format == 'bsr':
+                    raise core.Unsupported("bsr_matrix from a matrix with duplicate entries")
+                ent[j] = ent[j] + src.data[k] if j in ent else src.data[k]       # lil: duplicates are summed
+            rows.append(ent)
+        self._rows = self._fill(rows, blocksize)
+
+    def _fill(self, rows, blocksize):
+        return rows
+
+    @property
+    def nnz(self):
+        return sum(len(r) for r in self._rows)
+
+    def tocsr(self, copy=False):
+        data, indices, indptr = [], [], [0]
+        for ent in self._rows:
+            for j in ent:
+                data.append(ent[j])
+                indices.append(j)
+            indptr.append(len(data))
+        o = csr_matrix((data, indices, indptr), shape=self._shape)
+        o._dtype = self._dtype
+        return o
+
+    def tocsc(self, copy=False):
+        return self.tocsr().tocsc()
+
+    def tocoo(self, copy=False):
+        return self.tocsr().tocoo()
+
+    def copy(self):
+        o = type(self).__new__(type(self))
+        o._shape, o._dtype, o._rows = self._shape, self._dtype, [dict(r) for r in self._rows]
+        if hasattr(self, 'blocksize'):
+            o.blocksize = self.blocksize
+        return o
+
+    def transpose(self, axes=None, copy=False):
+        return type(self)(self.tocsr().transpose().tocsr())
+
+
+class lil_matrix(_via_csr):
+    """rows of sorted (column, value) lists; explicitly stored zeros of the source are kept"""
+    format = 'lil'
+
+    def _fill(self, rows, blocksize):
+        return [{j: ent[j] for j in sorted(ent)} for ent in rows]
+
+
+class bsr_matrix(_via_csr):
+    """dense R x C blocks: every cell of a block that holds any stored entry is stored (zeros included)"""
+    format = 'bsr'
+
+    def _fill(self, rows, blocksize):
+        if blocksize is None:
+            raise core.Unsupported("bsr_matrix without an explicit blocksize (scipy estimates one from the data)")
+        R, C = int(blocksize[0]), int(blocksize[1])
+        if self._shape[0] % R or self._shape[1] % C:
+            raise ValueError("invalid blocksize %r" % ((R, C),))
+        self.blocksize = (R, C)
+        out = []
+        for bi in range(self._shape[0] // R):
+            order = []          # block columns in order of first appearance, scanning the block's rows in storage order
+            for i in range(bi * R, (bi + 1) * R):
+                for j in rows[i]:
+                    if j // C not in order:
+                        order.append(j // C)
+            for i in range(bi * R, (bi + 1) * R):
+                out.append({j: rows[i].get(j, 0.0) for bj in order for j in range(bj * C, (bj + 1) * C)})
+        return out
 
 
 def isspmatrix(x):
